@@ -230,6 +230,39 @@ def run (cfg : Cfg) (s : State) : List Op → State
   | [] => s
   | op :: ops => run cfg (step cfg s op).st ops
 
+/-! ## Callbacks that raise
+
+`on_phase_change` / `on_senescence` are the caller's code.  When one of them raises, the exception leaves the method
+through `_transition_to` / `_enter_senescence` (the `with self._lock` block releases the lock) and whatever the method
+would have done AFTER the callback is skipped.  `stepCb` is `step` under callbacks that always raise:
+* `changeRaises`: the first announced change ends the call — `_phase` is already assigned, the event was delivered;
+  an auto-starting `tick` stops after `start()` (nothing consumed), a recovering `renew` keeps the stale senescence
+  reason (`_senescence_reason = None` comes after the transition);
+* `senescenceRaises`: everything was done except the return.
+The Boolean says whether the call ended by the callback's exception. -/
+
+inductive CbMode where
+  | ok | changeRaises | senescenceRaises
+  deriving DecidableEq, Repr
+
+def Ev.isSenescence : Ev → Bool
+  | .senescence _ => true
+  | _ => false
+
+def stepCb (m : CbMode) (cfg : Cfg) (s : State) (op : Op) : Out × Bool :=
+  match m with
+  | .ok => (step cfg s op, false)
+  | .senescenceRaises => (step cfg s op, (step cfg s op).evs.any Ev.isSenescence)
+  | .changeRaises =>
+    match (step cfg s op).evs with
+    | .change a b :: _ =>
+      (⟨match op with
+          | .tick _ => if s.phase = .nascent then started s else (step cfg s op).st
+          | .renew _ _ => { (step cfg s op).st with reason := s.reason }
+          | _ => (step cfg s op).st,
+        (step cfg s op).ret, [.change a b], (step cfg s op).lock, (step cfg s op).tag⟩, true)
+    | _ => (step cfg s op, false)
+
 /-! ## Several lifecycles alive at once
 
 The lifecycles of one process share nothing but the clock (`datetime.now()`).  A world is an association list
